@@ -25,7 +25,7 @@ Proof.
 Qed.
 
 Lemma clamp_ge1 k n : 1 <= k -> (0 < n)%Z -> 1 <= clamp k n.
-Proof. unfold clamp. intros. destruct (Z.of_nat k >? n)%Z; lia. Qed.
+Proof. rewrite clamp_min. lia. Qed.
 
 Definition bw (s : base) : nat := ev_weight (b_evs s).
 
